@@ -20,6 +20,7 @@ Template directives (lines starting with `//@`):
       //@assert <n> static|validate     how run-time assert number n is rendered (default static)
       //@floatcast <n>   the n-th `as` cast has a float operand (cast to an integer type)
       //@opassign <lvalue text> ...     expand `lv op= e` to `lv = lv op (e)` for these lvalues (floats)
+      //@floatneg <name> ...            `-name` / `-self.name` (floats) -> vx_f64_neg(name)
       //@closure <n> <name> | <text>    rename `_` parameter of the n-th closure / splice return contract
       //@replace-call "<tokens>" => "<text>"   (only for macro-like forms listed in DESIGN R11)
       //@bottom          lines spliced just before the body's closing brace
@@ -351,6 +352,29 @@ class FnRewriter:
                     self.edit(op.start, op.end, "= %s %s (" % (lv, op.text[0]), "R12")
                     self.edit(toks[end].start, toks[end].start, ")", "R12")
                     self.rule("R12")
+
+    def r12b_floatneg(self):
+        """`-x` / `-self.x` for the float names listed by //@floatneg -> vx_f64_neg(x) (Verus has no unary minus on floats)"""
+        names = self.opts.get("floatneg", [])
+        if not names:
+            return
+        toks = self.toks
+        bo, bc = self.body_range()
+        for i in range(bo + 1, bc):
+            t = toks[i]
+            if not (t.kind == "punct" and t.text == "-"):
+                continue
+            p = toks[i - 1]
+            unary = (p.kind == "punct" and p.text not in (")", "]")) or (p.kind == "id" and p.text in ("return", "in", "if", "while", "match", "else"))
+            if not unary:
+                continue
+            j = i + 1
+            if toks[j].text == "self" and toks[j + 1].text == ".":
+                j += 2
+            if toks[j].kind == "id" and toks[j].text in names and toks[j + 1].text not in (".", "(", "[", "::"):
+                self.edit(t.start, t.end, "vx_f64_neg(", "R12")
+                self.edit(toks[j].end, toks[j].end, ")", "R12")
+                self.rule("R12")
 
     def r6_closures(self):
         cl = self.opts.get("closures", {})
@@ -754,6 +778,7 @@ class FnRewriter:
         self.r4_asserts()
         self.r5_casts()
         self.r12_opassign()
+        self.r12b_floatneg()
         self.r6_closures()
         self.r13_mapcollect()
         self.r13b_itermapcollect()
@@ -1129,6 +1154,9 @@ class Assembler:
                             cur = None
                         elif c2 == "opassign":
                             opts["opassign"].extend(p2[1:])
+                            cur = None
+                        elif c2 == "floatneg":
+                            opts.setdefault("floatneg", []).extend(p2[1:])
                             cur = None
                         elif c2 == "closure":
                             d = opts["closures"].setdefault(int(p2[1]), {})
